@@ -230,6 +230,55 @@ func c17RunFile(c c17Case, files [][]rdbgen.Item) (kind, what string) {
 	if d := c17Diff(c17Expected(recs), got); d != "" {
 		return "lines", d
 	}
+	if c.Parallel == 2 {
+		return c17Main(c, files)
+	}
+	return "", ""
+}
+
+// c17Main: the whole decode command over two input files (this one and the next of the
+// catalogue): output <prefix>.0 and <prefix>.1 must each hold exactly the lines of their input.
+func c17Main(c c17Case, files [][]rdbgen.Item) (kind, what string) {
+	dir := os.Getenv("VERIF_SCRATCH")
+	prefix := filepath.Join(dir, fmt.Sprintf("c17m-%d.json", os.Getpid()))
+	var inputs []string
+	var want [][]string
+	for k := 0; k < 2; k++ {
+		file, recs := rdbgen.File(9, files[(c.File+k)%len(files)])
+		in := filepath.Join(dir, fmt.Sprintf("c17m-%d-%d.rdb", os.Getpid(), k))
+		ioutil.WriteFile(in, file, 0644)
+		defer os.Remove(in)
+		defer os.Remove(fmt.Sprintf("%s.%d", prefix, k))
+		inputs = append(inputs, in)
+		want = append(want, c17Expected(recs))
+	}
+	conf.Options.SourceRdbInput, conf.Options.TargetRdbOutput = inputs, prefix
+	defer func() { conf.Options.SourceRdbInput, conf.Options.TargetRdbOutput = nil, "" }()
+	aborted := false
+	hook.SetExitHook(func(int) { aborted = true })
+	defer hook.SetExitHook(nil)
+	done := make(chan struct{})
+	go func() {
+		defer close(done)
+		(&CmdDecode{}).Main()
+	}()
+	<-done
+	if aborted {
+		return "abort", "the decode command aborts on well-formed RDBs"
+	}
+	for k := 0; k < 2; k++ {
+		data, err := ioutil.ReadFile(fmt.Sprintf("%s.%d", prefix, k))
+		if err != nil {
+			return "no-output", fmt.Sprintf("decode command, input %d: %v", k, err)
+		}
+		got, why := c17Parse(data)
+		if why != "" {
+			return "format", fmt.Sprintf("decode command, output %d: %s", k, why)
+		}
+		if d := c17Diff(want[k], got); d != "" {
+			return "lines", fmt.Sprintf("decode command, output %d: %s", k, d)
+		}
+	}
 	return "", ""
 }
 
